@@ -312,10 +312,21 @@ func CheckUserInput(conf Root) error {
 		for _, name := range ig.Notification.Columns {
 			check("notification column name", name)
 		}
+		for _, cols := range ig.Table.Unique {
+			for _, name := range cols {
+				check("unique column name", name)
+			}
+		}
+		for _, cols := range ig.Table.Index {
+			for _, name := range cols {
+				check("index column name", name)
+			}
+		}
 		for _, inp := range ig.Event.Inputs {
-			check("referenced column name", inp.Filter.Ref.Column)
+			checkInputRefs(check, inp)
 		}
 		for _, bd := range ig.Block {
+			check("referenced table name", bd.Filter.Ref.Table)
 			check("referenced column name", bd.Filter.Ref.Column)
 		}
 	}
@@ -323,6 +334,16 @@ func CheckUserInput(conf Root) error {
 		check("source name", sc.Name)
 	}
 	return err
+}
+
+// The filter reference of an input and of every nested component
+// ends up in SQL text (select true from <table> where <column> = $1).
+func checkInputRefs(check func(name, val string), inp dig.Input) {
+	check("referenced table name", inp.Filter.Ref.Table)
+	check("referenced column name", inp.Filter.Ref.Column)
+	for _, c := range inp.Components {
+		checkInputRefs(check, c)
+	}
 }
 
 type Dashboard struct {
